@@ -14,7 +14,7 @@ from ginsim import probes, sched, shrink, world
 ID = 'C09'
 LEVEL = 'exploration'
 QUICK_RUNS = 5000
-THOROUGH_RUNS = 100000
+THOROUGH_RUNS = 150000
 SHRINK_BUDGET = 200
 RULE = ('run i draws from Random("<seed>/C09/<i>"): 1-4 threads, each a tree of '
         '<=25 nested config_scope blocks (entry: name, a/b shorthand, list, '
